@@ -25,7 +25,10 @@ def extend(tier, seed, ob, failures, coverage, facts=None):
         failures.append({"kind": "corr", "signature": "corr:crashw-classes", "what": f"{c['id']} call {i}: {what}",
                          "replay_body": K.case_text(c, None, what), "case": c})
     ob.add("tie:crashcore-class-sequences", not bad, f"{compared} calls compared" if not bad else bad[0][2][:300])
-    if facts is not None and "writeSeq" in facts:
+    if facts is not None:
+        ok_ws = facts.get("writeSeqStatus") == "[1]"
+        ob.add("tie:gen:writeseq", ok_ws, "every case of tools/writeseq.py translated" if ok_ws else "tools/writeseq.py could not linearise a case (its message is the comment of Generated.writeSeq)")
+    if facts is not None and "writeSeq" in facts and facts.get("writeSeqStatus") == "[1]":
         # three-way tie, execution leg: the order in which each call first writes its storage units is explained by the
         # write sequence TRANSLATED from the source for the case the call is an instance of
         sbad, scompared, ssummary, ssamples = S.tie(cases, facts["writeSeq"])
